@@ -131,7 +131,7 @@ VALUE_ZOO = [
     # characters that mean something to fmt, SQL, JSON, the lexer
     "%", "100%", "a%c", "%d", "%s%s", "%!", "a\\", "\\", "a\\*", "a*", "a?b", "it's", "''", "\u201cx\u201d", "\u2019", "\u0000", "a\u0000b", "\u00e9t\u00e9", "\u65e5\u672c\u8a9e" * 7,
     "\u65e5\u672c\u8a9e" * 7 + "\u0000", "x" * 47, "x" * 48, "x" * 49, "\u00e9" * 30, "x" * 300, "(", ")", "a(b", "a)b", "[", "]", "{", "a:b", "a=b", " ", "a b", ",", "a,b", "1,2",
-    "*", "?", "/", "/r/", "/a b/", "-", "--", "-a", "+", "~", "^", "<", ">=", "$1", "?1", ";", "--x", "/*", "\t", "\n", "\u00a0", "\ufffd", "\u0663", "e", "E1",
+    "'", '"', 'a"b', '""', "a b*", "a b?c", "/a b/x", "a" * 62, "a" * 63, "a" * 64, "a" * 65, "*", "?", "/", "/r/", "/a b/", "-", "--", "-a", "+", "~", "^", "<", ">=", "$1", "?1", ";", "--x", "/*", "\t", "\n", "\u00a0", "\ufffd", "\u0663", "e", "E1",
 ]
 VALUE_ZOO = [v.encode("ascii").decode("unicode_escape") if "\\u" in v or v in ("\\t", "\\n") else v.replace("\\\\", "\\") for v in VALUE_ZOO]
 KEYWORDS = {"AND", "OR", "NOT", "TO"}
@@ -156,7 +156,8 @@ def zoo_texts():
             spellings.append(v)                      # typed as it stands: numbers in odd spellings, schema words
         for s in dict.fromkeys(spellings):
             out += ["f:" + s, s + ":x", "f:[" + s + " TO z]", "f:[a TO " + s + "]", "f:{" + s + " TO *}", "f:(" + s + " OR x)", "f:(x OR " + s + " OR y)",
-                    s, "NOT " + s, "f:" + s + " AND g:y", "g:y " + s, "f:>" + s, "f:<=" + s, s + "~", "f:" + s + "^2", s + ":[1 TO 2]", "-" + s + " +f:" + s]
+                    s, "NOT " + s, "f:" + s + " AND g:y", "g:y " + s, "f:>" + s, "f:<=" + s, s + "~", "f:" + s + "^2", s + ":[1 TO 2]", "-" + s + " +f:" + s,
+                    s + ":(x OR y)", s + ":x*", s + ":/r/", s + ":>1", s + ":x AND " + s + ":y"]
     return list(dict.fromkeys(out))
 
 
@@ -173,6 +174,34 @@ def fragment_texts():
     border-line ones, alone and under every operator: whatever the parser makes of them, it must make the same with and without a
     default field (C11), return well-formed trees only (C10) that derive from the text (C06), and never panic (C01)."""
     return list(dict.fromkeys(c % f for f in FRAGMENTS for c in CONTEXTS))
+
+
+def paren_depth_groups(path):
+    """Groups in the format of GenTrees (written here, not by TLC: they are one tree each with ever more redundant parentheses):
+    k = 1..70 pairs around the whole query, around a field's value and around the operand of NOT and of OR."""
+    def tok(t, v=None):
+        return {"t": t, "v": v if v is not None else t, "pv": ""}
+    W = lambda i: tok("word", "w%d" % i)                       # plain words (i % 4 = 0 in the pools' numbering)
+    LP, RP, COLON = tok("LPAREN"), tok("RPAREN"), tok("COLON")
+    col = lambda v: {"op": "LIT", "ty": "col", "v": v, "sg": "x"}
+    lit = lambda v: {"op": "LIT", "ty": "str", "v": v, "sg": "x"}
+    eq = {"op": "EQUALS", "l": col("w4"), "r": lit("w8")}
+    shapes = [   # (tokens before, wrapped tokens, tokens after, expected tree)
+        ([], [W(4), COLON, W(8)], [], eq),
+        ([W(4), COLON], [W(8)], [], eq),
+        ([tok("NOT")], [W(4), COLON, W(8)], [], {"op": "NOT", "l": eq}),
+        ([W(12), tok("OR")], [W(4), COLON, W(8)], [], {"op": "OR", "l": lit("w12"), "r": eq}),
+        ([], [W(4), COLON, W(8)], [tok("AND"), W(12)], {"op": "AND", "l": eq, "r": lit("w12")}),
+    ]
+    with open(path, "w") as f:
+        for n, (pre, mid, post, tree) in enumerate(shapes, start=1):
+            b = n * 100
+            cases = [{"id": b, "base": b, "kind": "min", "toks": pre + mid + post, "expect": tree, "df": "", "ws": [], "kwcase": [], "note": ""}]
+            for k in list(range(1, 71)):
+                cases.append({"id": b + k, "base": b, "kind": "paren", "toks": pre + [LP] * k + mid + [RP] * k + post, "expect": tree, "df": "", "ws": [],
+                              "kwcase": [], "note": "%d pairs" % k})
+            f.write(json.dumps({"n": n, "cases": cases}) + "\n")
+    return path
 
 
 def deep_malformed_texts():
@@ -232,6 +261,7 @@ def check_C11(run):
     res, _, _ = stage_texts(run, depth_sweep_texts(), name="depth_sweep")
     stage_judge_enum(run, res, "C11", name="judge_depth_sweep")
     # default-field names that need quoting / look like syntax
-    for i, df in enumerate(["my field", "a*", "x:y", "\"q\"", "NOT"]):
+    # ... names with blanks at the edges, with backslashes, a lone backslash, a lone quote
+    for i, df in enumerate(["my field", "a*", "x:y", "\"q\"", "NOT", " notes", "notes ", "\tn", "dir\\name", "tail\\", "\\", "'"]):
         res, _, tot, _ = stage_enum(run, 3 if run.tier == "quick" else 4, FULL_ALPHABET, name="enum_df%d" % i, df=df)
         stage_judge_enum(run, res, "C11", name="judge_enum_df%d" % i)
